@@ -454,7 +454,15 @@ class KeyAdequacy(_CacheBase):
                 return
             keys.append(self.key)
             calls.append((recv, self.args, self.kwargs))
+            if n == 1 and self.is_method and \
+                    st.fork("receiver-1", [("still-alive-at-call-2", True), ("collected-before-call-2", True)]) == 1:
+                # the entry outlives its receiver: T-ID gives nothing across lifetimes (the address may be reused), T-WREF makes
+                # the dead reference unequal to every other reference
+                st.ghost.setdefault("$collected", []).append(recv)
+                self.dead_receiver = recv
         (r1, a1, k1), (r2, a2, k2) = calls
+        if getattr(self, "dead_receiver", None) is not None:
+            st.assume(z3.And(r1 != r2, lib.wref(r1) != lib.wref(r2)))
         typed_eq = lib.make_key(a1, k1) == lib.make_key(a2, k2)
         same_key = keys[0] == keys[1]
         st.meta.update(key1=keys[0], key2=keys[1])
